@@ -187,7 +187,7 @@ func init() {
 	Register(&Prop{
 		ID: "C09",
 		Rule: "laws as oracles: (R) ItemsEqual(x,x) for every exhaustive single-field value (all 14 kinds incl. links, pointer and value forms), top-level item lists and IRI lists, and seeded random nested values; (H) ids that differ only in host across 17 host pairs (IPv6 literals, IPv4, ports, subdomains, punycode) in IRI/object/actor forms; (L) lists of 7-17 members holding id-less objects and links that differ in one member; (N) the full nil-like x nil-like and nil-like x non-nil matrix in both argument orders; " +
-			"(I) for every object kind x {specific, generic type name} x {id host, id path, id query, type, each core property except mediaType/source in several shapes, and for transitive activities actor/object/target/result/origin/instrument}: a copy that differs in exactly that one thing must be unequal in both orders (evaluated only when the unmodified copy compares equal); distinct = law + case fingerprint; non-trivial = every case with a non-nil item",
+			"(I) for every object kind x {specific, generic type name} x {id host, id path, id query, type, each core property except mediaType/source in several shapes, and for transitive activities actor/object/target/result/origin/instrument}: a copy that differs in exactly that one thing must be unequal in both orders (evaluated only when the unmodified copy compares equal); (I in context) the same with one more property set identically on both sides, for every property of the kind in its structural shapes (IRI, object, link, item list, IRI list, 9-member list, empty list, 1/2/0 language values); (P) ids on one host whose paths differ around percent-escaped reserved characters, prefixes, segments and 300-byte paths; distinct = law + case fingerprint; non-trivial = every case with a non-nil item",
 		Layers: func(tier string) []Layer {
 			return []Layer{
 				{Name: "reflexive-single", N: len(reflSingles), Exhaustive: true, Run: func(c *Ctx, idx int) {
@@ -286,6 +286,69 @@ func init() {
 							c.Fail(fmt.Sprintf("eq|I|%s|%s|%s", ic.Kind.Fam, generic, what),
 								fmt.Sprintf("a copy of %s that differs only in %s compares equal (%s)", desc, what, ord),
 								map[string]any{"case": desc, "order": ord, "x": clipS(vmodel.Canon(x, vmodel.Exact).String(), 300), "y": clipS(vmodel.Canon(y, vmodel.Exact).String(), 300)})
+						}
+					}
+				}},
+				{Name: "identity-in-context", N: len(allContextCases), Exhaustive: true, Run: func(c *Ctx, idx int) {
+					// law (I) again, but with one more property set - identically on both sides - in each of its structural shapes:
+					// a comparison that returns early, or switches strategy, because of that other property must still see the difference
+					cc := allContextCases[idx]
+					g := vmodel.NewGen(newRand(int64(idx)*17 + 3))
+					p := cc.Kind.New()
+					v := reflect.ValueOf(p).Elem()
+					v.FieldByName("ID").Set(reflect.ValueOf(vocab.IRI("https://example.com/ctx/1")))
+					v.FieldByName("Type").Set(reflect.ValueOf(vocab.ActivityVocabularyType(cc.Kind.SpecificType())))
+					g.SetShape(v.Field(cc.Ctx.Index), cc.Ctx.Type, cc.CtxShape)
+					c.Distinct(fmt.Sprintf("ctx|%s|%s=%s", cc.Kind.Name, cc.Ctx.Term, cc.CtxShape), true)
+					for _, df := range cc.Kind.Fields() {
+						shapes := identShapes(df.Type)
+						if df.Term == cc.Ctx.Term || coreExcluded[df.Term] || len(shapes) == 0 || !identTerm(cc.Kind, df.Term) {
+							continue
+						}
+						xp := vmodel.DeepCopy(p)
+						g.SetShape(reflect.ValueOf(xp).Elem().Field(df.Index), df.Type, shapes[0])
+						yp := vmodel.DeepCopy(xp)
+						gy := vmodel.NewGen(newRand(int64(idx)*17 + 4))
+						gy.Base = "https://other.example"
+						setDifferent(gy, reflect.ValueOf(yp).Elem().Field(df.Index), df.Type, shapes[0])
+						x, y, same := xp.(vocab.Item), yp.(vocab.Item), vmodel.DeepCopy(xp).(vocab.Item)
+						desc := fmt.Sprintf("%s with %s=%s on both sides, differing in %s", cc.Kind.Name, cc.Ctx.Term, cc.CtxShape, df.Term)
+						c.Count("law:I", 1)
+						c.Count("law:I-in-context", 1)
+						eq0, ok := itemsEqual(c, "I baseline "+desc, x, same)
+						if !ok || !eq0 {
+							continue
+						}
+						for _, ord := range [][2]vocab.Item{{x, y}, {y, x}} {
+							if eq, ok := itemsEqual(c, "I "+desc, ord[0], ord[1]); ok && eq {
+								c.Fail(fmt.Sprintf("eq|I|context|%s|%s:%s|%s", cc.Kind.Fam, cc.Ctx.Term, shapeClass(cc.CtxShape), df.Term),
+									"values that differ in one property compare equal: "+desc, map[string]any{"case": desc, "x": clipS(vmodel.Canon(x, vmodel.Exact).String(), 300), "y": clipS(vmodel.Canon(y, vmodel.Exact).String(), 300)})
+							}
+						}
+					}
+				}},
+				{Name: "id-paths", N: len(pathPairs) * 2, Exhaustive: true, Run: func(c *Ctx, idx int) {
+					pp := pathPairs[idx/2]
+					host := []string{"https://example.com", "http://social.example:8443"}[idx%2]
+					ia, ib := vocab.IRI(host+pp[0]), vocab.IRI(host+pp[1])
+					forms := []struct {
+						n    string
+						a, b vocab.Item
+					}{
+						{"iri-iri", ia, ib},
+						{"obj-obj", &vocab.Object{ID: ia, Type: vocab.NoteType}, &vocab.Object{ID: ib, Type: vocab.NoteType}},
+						{"objv-iri", vocab.Object{ID: ia, Type: vocab.NoteType}, ib},
+						{"place-place", &vocab.Place{ID: ia, Type: vocab.PlaceType}, &vocab.Place{ID: ib, Type: vocab.PlaceType}},
+						{"tags", &vocab.Object{ID: "https://example.com/holder", Type: vocab.NoteType, Tag: vocab.ItemCollection{ia}}, &vocab.Object{ID: "https://example.com/holder", Type: vocab.NoteType, Tag: vocab.ItemCollection{ib}}},
+					}
+					for _, f := range forms {
+						desc := fmt.Sprintf("%s ids %q vs %q", f.n, string(ia), string(ib))
+						c.Distinct("paths|"+desc, true)
+						c.Count("law:I", 1)
+						for _, ord := range [][2]vocab.Item{{f.a, f.b}, {f.b, f.a}} {
+							if eq, ok := itemsEqual(c, "I "+desc, ord[0], ord[1]); ok && eq {
+								c.Fail("eq|I|id-path|"+pp[2]+"|"+f.n, "items whose ids differ in the path compare equal: "+desc, map[string]any{"case": desc})
+							}
 						}
 					}
 				}},
@@ -471,6 +534,65 @@ func oddClass(l []lv) string {
 	}
 	return fmt.Sprintf("%s/len%d", cls, len(l))
 }
+
+// pairs of ids on one host whose paths differ, around percent-escapes of reserved characters, case and length
+var pathPairs = [][3]string{
+	{"/tags/%23golang", "/tags/%23rust", "escaped-hash"}, {"/q/%3Fa=1", "/q/%3Fa=2", "escaped-question-mark"}, {"/files/a%2Fb", "/files/a%2Fc", "escaped-slash"}, {"/rate/100%25", "/rate/100%25x", "escaped-percent"},
+	{"/x%20y", "/x%20z", "escaped-space"}, {"/users/j%C3%BCrgen", "/users/j%C3%B6rgen", "escaped-utf8"}, {"/tags/%23", "/tags/%23%23", "escaped-hash"}, {"/a%3Bb", "/a%3Bc", "escaped-semicolon"},
+	{"/users/jdoe", "/users/jdoe2", "prefix"}, {"/users/jdoe/", "/users/jdoe2/", "prefix"}, {"/a/b/c", "/a/b/d", "last-segment"}, {"/a/b/c", "/a/x/c", "middle-segment"}, {"/~x", "/~y", "tilde"}, {"/@alice", "/@bob", "at"},
+	{"/a+b", "/a+c", "plus"}, {"/a:b", "/a:c", "colon"}, {"/" + strings.Repeat("p", 300) + "1", "/" + strings.Repeat("p", 300) + "2", "long"},
+}
+
+type contextCase struct {
+	Kind     vmodel.StructKind
+	Ctx      vmodel.Field
+	CtxShape string
+}
+
+// the properties law (I) judges for a kind: the object core, plus the six activity properties on activity kinds
+func identTerm(k vmodel.StructKind, term string) bool {
+	if _, ok := vmodel.Kinds[0].FieldByTerm(term); ok {
+		return true
+	}
+	if k.Fam == "activity" {
+		for _, t := range []string{"actor", "object", "target", "result", "origin", "instrument"} {
+			if t == term && (k.Name == "Activity" || t != "object") {
+				return true
+			}
+		}
+	}
+	return false
+}
+
+func contextShapes(t reflect.Type) []string {
+	switch {
+	case t.Kind() == reflect.Interface:
+		return []string{"iri", "obj:Object", "link-full", "list2", "iris2", "list9"}
+	case t == vmodel.IcT:
+		return []string{"l:iri", "l2", "l9", "l-empty"}
+	case t == vmodel.NlvT:
+		return []string{"nlv1u", "nlv2", "nlv-empty"}
+	}
+	return vmodel.FieldShapes(t, true)[:1]
+}
+
+var allContextCases = func() []contextCase {
+	var out []contextCase
+	for _, k := range vmodel.Kinds {
+		if k.Name == "Link" {
+			continue
+		}
+		for _, f := range k.Fields() {
+			if f.Name == "ID" || f.Name == "Type" {
+				continue
+			}
+			for _, sh := range contextShapes(f.Type) {
+				out = append(out, contextCase{k, f, sh})
+			}
+		}
+	}
+	return out
+}()
 
 // pairs of different hosts, in every notation a URL admits
 var hostPairs = [][2]string{
